@@ -212,3 +212,59 @@ def _make(root_inc: int):
 
 for _r in (-1, 0, 1, 2, 3):
     _make(_r)
+
+
+# --------------------------------------------------------------------------- format options and home-relative start dirs
+@obligation(prop="C18", sites=("equiv",), stubs=("FakeFS", "MemFormat"), budget={"quick": 120, "thorough": 240},
+            encodes=["cincoconfig.core.Config.loads", "cincoconfig.core.Config._process_includes",
+                     "cincoconfig.fields.include_field.IncludeField.include",
+                     "cincoconfig.fields.file_field.FilenameField._validate"],
+            examples=({"option": True, "home_startdir": True, "root_inc": True, "nested_inc": True, "x": 5, "y": 6},),
+            what="a load with a FORMAT OPTION (a root wrapper, like root_key / root_tag) and include files at the "
+                 "root and in a nested schema written with the same option, the start directory absolute or given "
+                 "relative to the home directory ('~/conf'): every included file is parsed by a formatter carrying "
+                 "the caller's options, and the result equals loading the reference-merged tree")
+def includes_with_format_options(option: bool, home_startdir: bool, root_inc: bool, nested_inc: bool, x: int, y: int) -> bool:
+    """
+    pre: 0 <= x <= 9 and 0 <= y <= 9
+    post: _
+    """
+    from vf.hlib.stubs import HOME
+    base = HOME + "/conf" if home_startdir else "/cfg"
+    startdir = "~/conf" if home_startdir else "/cfg"
+    fs = FakeFS(dirs=["/cfg", HOME, HOME + "/conf"])
+    mem = MemStore()
+    kw = {"wrap": "ROOT"} if option else {}
+
+    def doc(tree):
+        return mem.put({"ROOT": tree} if option else tree)
+    fs.files[base + "/r.mem"] = doc({"x": x, "sub": {"z": 7}})
+    fs.files[base + "/n.mem"] = doc({"y": y})
+    schema = Schema()
+    schema.inc = IncludeField(startdir=startdir)
+    schema.x = IntField(default=1)
+    schema.sub.inc = IncludeField(startdir=startdir)
+    schema.sub.y = IntField(default=3)
+    schema.sub.z = IntField(default=4)
+    main = {"x": 100, "sub": {"y": 200}}
+    ref = {"x": 100, "sub": {"y": 200}}
+    if root_inc:
+        main["inc"] = "r.mem"
+        ref = ref_merge(ref, {"x": x, "sub": {"z": 7}})
+    if nested_inc:
+        main["sub"]["inc"] = "n.mem"
+        ref["sub"] = ref_merge(ref["sub"], {"y": y})
+    with fs.patched(), mem.registered():
+        cfg = schema()
+        created0 = len(mem.created)
+        try:
+            cfg.loads(doc(main), format="mem", **kw)
+            err = None
+        except Exception as exc:  # noqa: BLE001
+            err = exc
+        hold("equiv", err is None, lambda: "load with includes failed: %r" % (err,))
+        hold("equiv", all(k == kw for k in mem.created[created0:]),
+             lambda: "formatters built during the load carry %r, the caller asked for %r" % (mem.created[created0:], kw))
+        hold("equiv", (cfg.x, cfg.sub.y, cfg.sub.z) == (ref["x"], ref["sub"]["y"], ref["sub"].get("z", 4)),
+             lambda: "loaded %r, reference merge gives %r" % ((cfg.x, cfg.sub.y, cfg.sub.z), ref))
+    return True
